@@ -854,8 +854,21 @@ impl WorldB {
         }
     }
 
+    /// who is paid: mostly somebody of the universe, now and then the proxy itself (or the other proxy) — the
+    /// contract's own address is a legal recipient like any other
+    fn pick_recipient(&self, rng: &mut Rng) -> String {
+        if rng.chance(1, 7) {
+            let l = *rng.pick(&["sk", "sk", "wl"]);
+            let a = self.chain.addr(l);
+            if !a.is_empty() {
+                return a;
+            }
+        }
+        rng.pick(&self.universe).clone()
+    }
+
     fn gen_cosmos_msg(&mut self, rng: &mut Rng, sender: &str) -> CosmosMsg {
-        let to = rng.pick(&self.universe).clone();
+        let to = self.pick_recipient(rng);
         // what the sender may still spend (first denom with an allowance)
         let reference = self
             .idx(sender)
@@ -1271,7 +1284,7 @@ impl World for WorldB {
                                 };
                                 amount.push(Coin::new(a, c.denom.clone()));
                             }
-                            let to = rng.pick(&self.universe).clone();
+                            let to = self.pick_recipient(rng);
                             msgs.push(cm(&CosmosMsg::Bank(BankMsg::Send { to_address: to, amount })));
                         } else {
                             msgs.push(cm(&self.gen_cosmos_msg(rng, &sender)));
